@@ -15,8 +15,8 @@ PROP = 'C11'
 LEVEL = 'exploration'
 RULE = ('ASTs (T1 single gates of every library-mapped primitive incl. open pins, T2 slice, T3 small with flip-flops, T4/T5 shapes, constants) x 5 libraries x rendering options '
         '(declaration style scalar/descending/ascending/mixed buses, port order, statement order, pin order, output via assign, escaped identifiers, comments/attributes/whitespace/CRLF, '
-        'wire re-declaration, constants on pins or via sized-constant bus, open pins omitted or empty, assign order, alias chains, concatenation assign of bits / with whole vectors on either side): default + every single deviation '
-        '(+ all pairs in thorough) x branchforks; bench renderings of primitive-only ASTs with their own options; distinct_nontrivial = distinct (AST, library, options) texts with non-constant function')
+        'wire re-declaration, constants on pins or via sized-constant bus (used bit = first or later 1/0 bit) or via several scalar constant assigns, open pins omitted or empty, assign order, alias chains, concatenation assign of bits / with whole vectors on either side): default + every single deviation '
+        '(+ all pairs in thorough) x branchforks; every parsed and resolved circuit is evaluated by the reference graph evaluator AND simulated by LogicSim (m=2, all patterns); bench renderings of primitive-only ASTs with their own options; distinct_nontrivial = distinct (AST, library, options) texts with non-constant function')
 ASSUMPTIONS = ['library pin tables are trusted here (checked by C19); primitive kind -> cell mapping is derived from the implementation circuits',
                'truth tables by the reference graph evaluator after resolve_tlib_cells (tied to substitute by C10)',
                'supported subset: flat module, scalar/bus declarations, pins connected to scalar nets, bit selects or 1-bit constants']
